@@ -229,10 +229,40 @@ def inverse_maps(ctx, prog, rule_maps, rule_cov, rule_fmt, only=None):
                     ctx.ob(rule_fmt, "value-is-field/%s.%s" % (label, fld), not arith, "%s.%s is written as %s (must be the stored field itself, not a value computed from it)" % (label, fld, tree_str(strip_deep(s["tree"]))[:120]), nontrivial=False)
                     if not ok or True:
                         ctx.ob(rule_fmt, "plain-display/%s.%s" % (label, fld), ok, "%s.%s (%s) is formatted with spec %s (must be plain {} Display: shortest round-trip representation)" % (label, fld, s["vtype"], s["spec"]), nontrivial=False)
+    if only is None or "IntensityLimits" in only or "ColorLimits" in only or "limits" in only:
+        limit_value_forms(ctx, prog, rule_maps)
     ctx.floor(rule_maps, "structures compared", n_struct, 14 if only is None else len(only))
     ctx.floor(rule_maps, "fields compared", n_fields, 80 if only is None else 4 * len(only))
     ctx.ob("R3w", "skeleton-fragments", not skel_problems, "per-structure XML fragments tokenise as balanced XML: %s" % skel_problems[:5]) if False else None
     return skel_problems
+
+
+LIMIT_FORMS = {"Integer": ("Integer", None), "ScaledInteger": ("ScaledInteger", None), "Single": ("Float", "single"), "Double": ("Float", "double")}
+
+
+def limit_value_forms(ctx, prog, rule):
+    """a limit value is a RecordValue: the element written for each variant must carry the (type, precision) pair that
+    limits::extract_limit maps back to that variant (Float without precision is read as Double)"""
+    n = 0
+    for wfn in ("limits::IntensityLimits::xml_string", "limits::ColorLimits::xml_string"):
+        out, text, problems, root = xmlgen.writer_map(prog, wfn)
+        for name, sites in sorted(out.items()):
+            m = re.search(r"\.(Integer|ScaledInteger|Single|Double)\.0$", name)
+            if not m:
+                continue
+            want = LIMIT_FORMS[m.group(1)]
+            for st in sites:
+                if st["where"] != "text":
+                    continue
+                e = st.get("elem")
+                n += 1
+                attrs = e.attrs if e is not None else {}
+                prec = attrs.get("precision")
+                ok = attrs.get("type") == want[0] and (prec == want[1] or (want[1] in (None, "double") and prec is None))
+                ctx.ob(rule, "limit-form/%s/%s/%s" % (short(wfn), st["path"].rsplit("/", 1)[-1], m.group(1)), ok,
+                       "%s limit %s is written with type=%s precision=%s (the reader maps type=%s precision=%s to this variant)" % (
+                           m.group(1), st["path"], attrs.get("type"), prec, want[0], want[1] or "absent"), nontrivial=False)
+    ctx.floor(rule, "limit value forms (variant x limit element)", n, 32)
 
 
 MAP_EXCEPTIONS = {
@@ -1165,3 +1195,48 @@ def datetime_flag(ctx, prog, rule):
         if "'1'" in txt and "isAtomicClockReferenced" not in txt:
             okr = callee_of(t).endswith("eq")
     ctx.ob(rule, "datetime-flag/reader", okr, "atomic_reference is read as text == \"1\"")
+
+
+_POSITIONAL_NODE = ("next_sibling", "prev_sibling", "next_sibling_element", "prev_sibling_element", "first_child", "last_child",
+                    "first_element_child", "last_element_child", "next_siblings", "prev_siblings")
+_POSITIONAL_ITER = ("nth", "last", "skip", "step_by", "nth_back")
+
+
+def _positional_hits(prog, fns):
+    hits = []
+    for f in fns:
+        R = None
+        for bi, t in f.calls():
+            c = callee_of(t)
+            last = c.rsplit("::", 1)[-1].split("<")[0]
+            if "roxmltree" in c and last in _POSITIONAL_NODE:
+                hits.append((f, bi, short(c)))
+            elif last in _POSITIONAL_ITER and t["args"]:
+                R = R or Resolver(f, max_depth=12)
+                recv = R.operand(t["args"][0])
+                if any(x[0] == "call" and "roxmltree" in x[1] and x[1].rsplit("::", 1)[-1] in ("children", "descendants", "ancestors", "attributes") for x in leaves(recv)):
+                    hits.append((f, bi, "%s on %s" % (last, "a roxmltree iterator")))
+    return hits
+
+
+def no_positional_navigation(ctx, prog, rule):
+    """members of an E57 structure are unordered and extensions may add their own: a standard element or attribute must
+    be found by its name among all children, never as "the element after X" or "the n-th child" """
+    import panic_rules
+    rs = panic_rules.roots(prog, "reader")
+    fns = [prog.fns[p] for p in sorted(prog.reachable_from(rs))]
+    hits = _positional_hits(prog, fns)
+    for f, bi, what in hits:
+        ctx.fn_seen(f)
+        ctx.ob(rule, "positional-navigation/%s/%s" % (short(f.path), what.split(" ")[0]), False,
+               "%s finds XML content by position (%s): a foreign element placed in between changes what the reader reports" % (short(f.path), what), where=f.file_line(bi))
+    ctx.ob(rule, "positional-navigation/none", not hits, "no reader function navigates the XML tree by position (%d functions searched)" % len(fns), nontrivial=False)
+    ctx.floor(rule, "reader functions searched for positional XML navigation", len(fns), 40, semantic=False)
+
+
+def positional_controls(ctx, rule):
+    prog, info = load_program("controls", "controls")
+    ctx.configs["controls"] = info
+    for name, expect in (("xmlnav::by_position", True), ("xmlnav::by_index", True), ("xmlnav::by_name", False)):
+        fs = [prog.fn(name)] + list(prog.closures_of(prog.fn(name)))
+        ctx.control(rule, name, bool(_positional_hits(prog, fs)), expect)
